@@ -498,3 +498,13 @@ package dataflow
 //@   requires g != nil
 //@   requires forall c *ssa.MakeClosure, k int :: has(g.CreatedClosures, c) && g.CreatedClosures[c] != nil && 0 <= k && k < len(g.CreatedClosures[c].boundVars) ==> g.CreatedClosures[c].boundVars[k] != nil
 //@   ensures bound_edge: old(g.CreatedClosures[closure]) != nil && retof(ClosureNode.FindBoundVar, old(g.CreatedClosures[closure]), v) != nil ==> called(SummaryGraph.addEdge, g, mark, _, cond)
+
+// ---------------------------------------------------------------------------
+// C17: linking a call node to its callee's summary also registers the call site in
+// the callee (the traversals return from a callee through Callsites, so an edge that
+// exists caller->callee must exist callee->caller).
+//@ func InterProceduralFlowGraph.resolveCalleeSummary
+//@   property C17 C09
+//@   option havoc:PopulateGraphFromSummary
+//@   requires g != nil && node != nil && g.AnalyzerState != nil
+//@   ensures callsite_registered: result != nil ==> has(result.Callsites, node.CallSite()) && result.Callsites[node.CallSite()] != nil
